@@ -372,7 +372,31 @@ def r11_6(ctx):
     ctx.end()
 
 
+def r11_8(ctx):
+    """Keys compare values: an `is` / `is not` between two non-singletons in a sort function or a helper of its module (`main_workplace_id
+    is not workplace_id`) orders by object identity -- equal ID strings that are different objects (after a JSON load) then rank as
+    different.  (C09 R9.2 applied to the priority-rule module.)"""
+    ctx.begin("R11.8", "sort keys compare by value, never by identity", floor=4)
+    mods = {ctx.repo.func(n).module for n in ("sort_task_list", "sort_worker_list", "sort_facility_list", "sort_workplace_list")}
+    for g in ctx.repo.all_funcs():
+        if g.module not in mods or g.cls is not None:
+            continue
+        ctx.instance(g.qualname)
+        for n in ast.walk(g.node):
+            if isinstance(n, ast.Compare):
+                for op, right, left in zip(n.ops, n.comparators, [n.left] + n.comparators[:-1]):
+                    if isinstance(op, (ast.Is, ast.IsNot)):
+                        def singleton(x):
+                            return (isinstance(x, ast.Constant) and x.value in (None, True, False)) or ctx.repo.enum_of_member_expr(x) is not None
+                        if not singleton(left) and not singleton(right):
+                            ctx.violation(construct(g, f"identity-comparison:{ast.unparse(left)[:30]}"), g.loc(n),
+                                          f"`{ast.unparse(n)[:70]}` in a sort key compares by identity: equal ID strings that are different objects (e.g. after a JSON load) compare unequal, "
+                                          f"so the documented key is not the one that orders the candidates")
+    ctx.end()
+
+
 def run(ctx):
+    r11_8(ctx)
     r11_1(ctx)
     r11_2(ctx)
     r11_7(ctx)
